@@ -25,7 +25,7 @@ ANCHORS = ["runlengtharray.py::RunLength2dArray.from_array", "runlengtharray.py:
 OPS = ["decode", "meta", "rows", "elem", "col_int", "col_slice", "red_row", "red_col", "ravel", "concat", "npfunc", "unary", "scalar", "colvec", "intervals"]
 FLOOR_TAGS = ["op:" + o for o in OPS] + ["variant:2d", "variant:ragged", "variant:ragged_from_matrix", "rows:int", "rows:slice", "rows:list", "rows:mask",
                                          "cs:pos", "cs:neg", "side:L", "side:R", "red:argmax", "red:mean", "col:sum", "col:mean", "col:col_counts", "col:any", "j:neg",
-                                         "kind:b", "kind:i", "kind:u", "kind:f", "order:F", "order:T", "source:lazyrows", "source:lazychain", "via:intervals", "via:plus1"]
+                                         "kind:b", "kind:i", "kind:u", "kind:f", "order:F", "order:T", "source:lazyrows", "source:lazychain", "via:intervals", "via:plus1", "concat:mixed-dtypes", "scalar:0-d-array", "scalar:numpy-typed"]
 FLOOR_MONITORS = ["c17:compare", "inv:rla"]
 N_RANDOM = {"quick": 20000, "thorough": 300000}
 
@@ -215,11 +215,23 @@ def run(case):
         a = attempt(lambda: to_rows(rlx.ravel()))
         what = "ravel()"
     elif op == "concat":
-        rows2 = [np.array(r).astype(dt) for r in case["rows2"]]
-        other = lib.RunLengthRaggedArray.from_ragged_array(lib.RaggedArray([r.copy() for r in rows2], dtype=dt))
-        o = ("2d", pyrows + [r.tolist() for r in rows2])
-        a = attempt(lambda: to_rows(np.concatenate([rlx, other])))
-        what = "np.concatenate with rows %s" % short(case["rows2"], 100)
+        dt2 = np.dtype(case.get("dtype2") or dt)          # the second operand may have another element type: numpy promotes, values are kept
+        rows2 = [np.array(r).astype(dt2) for r in case["rows2"]]
+        if dt2 != dt:
+            tags.append("concat:mixed-dtypes")
+        rdt = np.result_type(dt, dt2)           # numpy's promotion of the two element types (int64 with uint64 / float: float64)
+        other = lib.RunLengthRaggedArray.from_ragged_array(lib.RaggedArray([r.copy() for r in rows2], dtype=dt2))
+        if case.get("swap"):
+            rlx_, other = other, rlx
+            o = ("2d", [r.astype(rdt).tolist() for r in rows2] + [r.astype(rdt).tolist() for r in rows])
+            a = attempt(lambda: to_rows(np.concatenate([rlx_, other])))
+            what = "np.concatenate([other, rl]) with rows %s (%s)" % (short(case["rows2"], 100), dt2)
+        else:
+            pass
+        if not case.get("swap"):
+            o = ("2d", [r.astype(rdt).tolist() for r in rows] + [r.astype(rdt).tolist() for r in rows2])
+            a = attempt(lambda: to_rows(np.concatenate([rlx, other])))
+            what = "np.concatenate with rows %s (%s)" % (short(case["rows2"], 100), dt2)
     elif op == "npfunc":
         name, axis = case["name"], case["axis"]
         f = getattr(np, name)
@@ -246,6 +258,11 @@ def run(case):
         tags += ["side:" + side, "uf:" + case["uf"]]
         if op == "scalar":
             s = case["scalar"]
+            if case.get("zerod"):
+                s = np.array(s, dtype=case["zerod"])         # a 0-d array: strongly typed in numpy 2, unlike a python number
+                tags.append("scalar:0-d-array")
+            elif isinstance(s, np.generic):
+                tags.append("scalar:numpy-typed")
             other = s
             per = [s] * n
         else:
@@ -337,14 +354,15 @@ def gen_case(rng, tier, op=None, variant=None, dtype=None):
     ragged_only = op in ("col_int", "col_slice", "ravel", "concat", "npfunc")
     variant = variant or rng.choice(["ragged", "ragged_from_matrix"] if ragged_only else ["2d", "ragged", "ragged_from_matrix"])
     for _ in range(30):
-        pyrows = gen_rows(rng, dtype, variant != "ragged", tier, "sparse" if (op in ("red_row", "red_col", "unary") and rng.random() < 0.5) else "small")
+        vclass = "sparse" if (op in ("red_row", "red_col", "unary") and rng.random() < 0.5) else ("close" if (np.dtype(dtype).kind == "f" and op in ("decode", "meta", "rows", "elem", "col_int", "col_slice", "ravel", "concat") and rng.random() < 0.4) else "small")
+        pyrows = gen_rows(rng, dtype, variant != "ragged", tier, vclass)
         n = len(pyrows)
         c = {"op": op, "variant": variant, "dtype": dtype, "rows": pyrows}
         if variant == "2d" and np.dtype(dtype).kind in "iub" and rng.random() < 0.3:
             c["rows"] = pyrows = interval_rows(rng, dtype)
             c["via"] = "intervals"
             n = len(pyrows)
-        elif variant == "2d" and np.dtype(dtype).kind in "iuf" and dtype not in ("uint8", "uint16", "uint32", "uint64") and rng.random() < 0.15:
+        elif variant == "2d" and np.dtype(dtype).kind in "iuf" and dtype not in ("uint8", "uint16", "uint32", "uint64") and vclass != "close" and rng.random() < 0.15:
             c["via"] = "plus1"
         if variant != "ragged":
             c["order"] = rng.choice(["C", "C", "F", "T"])
@@ -386,7 +404,13 @@ def gen_case(rng, tier, op=None, variant=None, dtype=None):
             c["name"] = rng.choice(["sum", "any"] if variant == "2d" else ["sum", "mean", "col_counts"])
             return c
         if op == "concat":
-            c["rows2"] = gen_rows(rng, dtype, False, tier)
+            if rng.random() < 0.4:
+                d2 = rng.choice(gen.DT_ALL)
+                c["dtype2"] = d2
+                c["rows2"] = [gen.values(rng, d2, rng.randint(1, 5), rng.choice(["small", "extreme"])).tolist() for _ in range(rng.randint(1, 3))]
+                c["swap"] = rng.random() < 0.5
+            else:
+                c["rows2"] = gen_rows(rng, dtype, False, tier)
             return c
         if op == "npfunc":
             c["name"], c["axis"] = rng.choice([("sum", -1), ("sum", 0), ("mean", -1), ("mean", 0), ("max", -1)])
@@ -396,6 +420,13 @@ def gen_case(rng, tier, op=None, variant=None, dtype=None):
             return c
         if op == "scalar":
             c.update(uf=rng.choice(["add", "subtract", "multiply", "maximum", "less", "bitwise_and", "floor_divide", "greater_equal"]), side=rng.choice("LR"), scalar=rng.choice([2, 3, 1, np.int64(2), 2.5]))
+            u = rng.random()
+            if u < 0.2:
+                c.update(scalar=rng.choice([1, 2, 100, 200, -1, 3]), zerod=rng.choice(["int64", "int64", "int32", "float64", "uint8"]))
+                if c["zerod"] == "uint8" and c["scalar"] < 0:
+                    c["scalar"] = 3
+            elif u < 0.35:
+                c["scalar"] = rng.choice([np.int16(300), np.float32(0.5), np.uint8(7), np.int8(-3), np.float64(2.5), np.uint64(5)])
             return c
         if op == "colvec":
             if n == 1:
